@@ -25,9 +25,9 @@ func (f *Frame) bindResults(x *ssa.Call, res []Term, st *State) {
 			f.freshFor(x, st)
 			return
 		}
-		want := f.e.sortOf(x.Type())
+		want := f.sortFor(x)
 		if res[0].Sort != want {
-			res[0] = f.coerce(res[0], x.Type(), x.Type())
+			res[0] = f.coerceSort(res[0], want, x.Type())
 		}
 		f.vals[x] = f.e.define(f.name(x), res[0])
 	default:
@@ -438,16 +438,10 @@ func (f *Frame) builtin(c *cursor, site ssa.Instruction, call *ssa.CallCommon, b
 				t = intLit(0)
 			}
 		}
-		if e.bv {
-			t = f.intToBV(t)
-		}
 		return []Term{t}
 	case "cap":
 		v := f.val(call.Args[0])
 		t := slCap(v)
-		if e.bv {
-			t = f.intToBV(t)
-		}
 		return []Term{t}
 	case "append":
 		return []Term{f.doAppend(c, site, call)}
@@ -640,9 +634,6 @@ func (f *Frame) doCopy(c *cursor, site ssa.Instruction, call *ssa.CallCommon) Te
 	), nm.S)
 	st.heap[fam] = nm
 	e.famSort[fam] = memSort(es)
-	if e.bv {
-		return f.intToBV(n)
-	}
 	return n
 }
 
